@@ -427,11 +427,17 @@ def small_width_models(ctx, which=("word", "alu")):
 # ------------------------------------------------------------------------------------------------
 # C01 / C03 / C04: instruction semantics on the three engines
 # ------------------------------------------------------------------------------------------------
+# the frame family (an instruction changes its destination and nothing else) is enumerated more
+# densely than the operand families in the quick tier
+FRAME_RATE = 8
+
+
 def run_C01(ctx):
     small_width_models(ctx)
     word64_model(ctx)
     rate = 24 if ctx.quick else 1
     recs = exec_cases(ctx, "isa", ["alu", "jmp", "far", "farcall", "mem", "cfg", "calls"], rate, timeout=1500)
+    recs += exec_cases(ctx, "frame", ["frame"], FRAME_RATE if ctx.quick else 1, timeout=1500)
     ctx.nontrivial = len({json.dumps(r["case"]["id"]) for r in recs})
     replay_exec(ctx, "isa", recs, ["interp"])
     # direction A: random terminating programs, every step validated
@@ -447,6 +453,7 @@ def run_C01(ctx):
 def run_C03(ctx):
     rate = 24 if ctx.quick else 1
     recs = exec_cases(ctx, "isa", ["alu", "jmp", "far", "farcall", "mem", "cfg", "calls"], rate, timeout=1500)
+    recs += exec_cases(ctx, "frame", ["frame"], FRAME_RATE if ctx.quick else 1, timeout=1500)
     ctx.nontrivial = len({json.dumps(r["case"]["id"]) for r in recs})
     rep = replay_exec(ctx, "isa", recs, ["jit"], pair="interp")
     ctx.disagreements_checked = rep.get("disagreements_checked", 0)
@@ -458,6 +465,7 @@ def run_C03(ctx):
 def run_C04(ctx):
     rate = 24 if ctx.quick else 1
     recs = exec_cases(ctx, "isa", ["alu", "jmp", "far", "farcall", "mem", "calls", "cfg"], rate, timeout=1500)
+    recs += exec_cases(ctx, "frame", ["frame"], FRAME_RATE if ctx.quick else 1, timeout=1500)
     ctx.nontrivial = len({json.dumps(r["case"]["id"]) for r in recs})
     ctx.extra["programs_with_local_calls_must_be_refused"] = sum(
         1 for r in recs if any(sg[1][0] == 0x85 and sg[1][2] == 1 for sg in r["case"]["prog"]))
